@@ -493,7 +493,7 @@ pub const DEF: PropertyDef = PropertyDef {
            (30) map calls (set_source_root, set_source, set_source_contents, to_writer+from_slice); strings from small pools with \
            duplicates, \"\", absolute paths, URLs, roots with/without trailing '/'. Oracle: interning model for returned ids; every token \
            (unique generated line) resolves to the strings it was added with; after every map op sources read as join(root, raw), the \
-           serialised JSON carries raw names + root. Non-trivial = a string re-added non-consecutively, set_source_root both before and \
+           serialised JSON carries raw names + root. Builder: add_token with tokens of foreign one-token maps, names without a source; map phase also set_file / set_debug_id / add_to_ignore_list. Non-trivial = a string re-added non-consecutively, set_source_root both before and \
            after a set_source, and a save/load",
     assumptions: &[
         "set_source_contents / set_source are only called with an existing id (documented to panic otherwise)",
